@@ -51,18 +51,18 @@ Print Assumptions C17_block_exact.
     and the link count is right.  [fl] is irrelevant here: no reload. *)
 Theorem C17_incremental : forall fl mode t ops,
   wf_gtime t -> Forall wf_op ops -> forallb is_edit ops = true ->
-  exists d, run fl (new_dir mode t) ops = Some d /\
+  exists d, run fl (new_dir fl mode t) ops = Some d /\
             est d = blen (node_bytes d) /\ 0 <= est d /\ total d = blen (links d).
 Proof. exact edits_exact. Qed.
 Print Assumptions C17_incremental.
 
-(** Full strength including reloads, for the model with the reload repaired
-    ([fl = true]: a stored mode field is counted even when its permission bits
-    are zero): creation, then ANY sequence of adds, replacements, removals and
+(** Full strength including reloads, for the model with the repair
+    ([fl = true]: computeEstimatedSizeAndTotalLinks sizes the Data field as it is
+    stored in the node instead of from Mode()/ModTime()): creation, then ANY sequence of adds, replacements, removals and
     reloads of the serialised block (NewBasicDirectoryFromNode). *)
 Theorem C17_history_fixed : forall mode t ops,
   wf_gtime t -> Forall wf_op ops ->
-  exists d, run true (new_dir mode t) ops = Some d /\
+  exists d, run true (new_dir true mode t) ops = Some d /\
             est d = blen (node_bytes d) /\ 0 <= est d /\ total d = blen (links d).
 Proof. exact history_exact_fixed. Qed.
 Print Assumptions C17_history_fixed.
@@ -72,8 +72,8 @@ Print Assumptions C17_history_fixed.
     of the new entry, sized from the NEW link) is the exact length of the block
     the directory serialises after the edit — fresh adds and replacements alike,
     whatever the Tsize classes of the old and the new target. *)
-Theorem C17_decision_exact : forall M T e d, wf_gtime T -> good_entry e -> inv M T d ->
-  decision_size e d = blen (node_bytes (fst (add_child e d))).
+Theorem C17_decision_exact : forall fl M T e d, wf_gtime T -> good_entry e -> inv M T d ->
+  decision_size e d = blen (node_bytes (fst (add_child fl e d))).
 Proof. exact decision_exact. Qed.
 Print Assumptions C17_decision_exact.
 
@@ -82,19 +82,19 @@ Print Assumptions C17_decision_exact.
     iff the exact block after the edit is longer than the threshold in force
     (strictly: a block exactly at the threshold stays basic); nothing else
     converts a basic directory. *)
-Theorem C17_decision_sound : forall mode t ops,
-  wf_gtime t -> Forall wf_dop ops -> dyn_sound (new_dir mode t) ops = true.
+Theorem C17_decision_sound : forall fl mode t ops,
+  wf_gtime t -> Forall wf_dop ops -> dyn_sound fl (new_dir fl mode t) ops = true.
 Proof. exact decision_sound. Qed.
 Print Assumptions C17_decision_sound.
 
 (** Finding C17-1 (model of today's NewBasicDirectoryFromNode, [fl = false]):
     reloading the serialised block of a directory whose stored mode has no
     permission bits yields an estimate that is NOT the block length, while the
-    model with the reload repaired ([fl = true]) is exact on the same history. *)
+    model with the repair ([fl = true]) is exact on the same history. *)
 Theorem C17_reload_refuted : exists mode t ops d,
   wf_gtime t /\ Forall wf_op ops /\
-  run false (new_dir mode t) ops = Some d /\ est d <> blen (node_bytes d) /\
-  exists d', run true (new_dir mode t) ops = Some d' /\ est d' = blen (node_bytes d').
+  run false (new_dir false mode t) ops = Some d /\ est d <> blen (node_bytes d) /\
+  exists d', run true (new_dir true mode t) ops = Some d' /\ est d' = blen (node_bytes d').
 Proof. exact reload_refuted. Qed.
 Print Assumptions C17_reload_refuted.
 
@@ -104,7 +104,7 @@ Example C17_example :
   let e2 := {| e_name := [97]; e_cid := [1; 85; 0; 3; 1; 2; 3]; e_tsize := 9223372036854775807 |} in
   let ops := [OAdd e1; OAdd e2; OAdd {| e_name := [98]; e_cid := e_cid e2; e_tsize := 0 |}; ORemove [97]] in
   wf_gtime (-1, 999999999) /\ Forall wf_op ops /\ forallb is_edit ops = true /\
-  match run false (new_dir 2147484141 (-1, 999999999)) ops with
+  match run false (new_dir false 2147484141 (-1, 999999999)) ops with
   | Some d => (est d =? blen (node_bytes d)) && (est d =? 41) && (total d =? 1)
   | None => false
   end = true.
@@ -123,7 +123,7 @@ Example C17_decision_example :
               (200, OAdd {| e_name := [98]; e_cid := c; e_tsize := 4 |});
               (90, OAdd {| e_name := [97]; e_cid := c; e_tsize := 311 |})] in
   Forall wf_dop ops /\
-  map (fun x => (fst (fst x), snd (fst x))) (dyn_trace (new_dir 0 zero_time) ops)
+  map (fun x => (fst (fst x), snd (fst x))) (dyn_trace false (new_dir false 0 zero_time) ops)
     = [(false, 47); (false, 90); (true, 91)].
 Proof.
   cbv zeta. split.
